@@ -2,6 +2,8 @@ import MindsVerif.Lemmas.RenderFull
 import MindsVerif.Lemmas.SaParen
 import MindsVerif.Model.EngineSqlite
 import MindsVerif.Gen.SaPrec
+import MindsVerif.Lemmas.RenderSetOps
+import MindsVerif.Lemmas.RenderScope
 /-!
 # C06 — SQL rendered through SQLAlchemy means the same as the parsed statement
 
@@ -42,6 +44,20 @@ Grouping (T6.2):
                            grammars, the join keywords probed on the real renderer).
 * `C06_regress_*`       : regression examples for repaired defects (all known findings of this
                            property are repaired; none is open).
+
+Round 5 (text structure of set operations; FROM lists of nested sub-queries):
+* `C06_setops`          : `C06_setops_full` — for every dialect, every set-operation tree (any shape / depth,
+                           UNION / INTERSECT / EXCEPT, DISTINCT and ALL) and all operand contents, the text
+                           `prepare_union` prints, read the way the target reads a compound (sqlite: one level,
+                           left to right; MySQL / PostgreSQL: INTERSECT first), has the rows of the tree.
+                           `C06_setops_unsupported`, `C06_setops_query` (on top of `C06_norm`),
+                           `C06_setops_left_chain` (continuing the chain on the LEFT is equally right for sqlite),
+                           `C06_setops_accepted` (soundness of the checker the stream `render-setops` applies to
+                           the real renderer's text), `C06_setops_accepts`, `C06_witness_rejected`,
+                           `C06_witness_except_assoc`, `C06_witness_10`, `C06_witness_flat_prec`.
+* `C06_from_fresh`      : with a new `FromClause` object per table reference, SQLAlchemy's auto-correlation
+                           leaves every FROM list of every nesting level complete; `C06_witness_9*`: with
+                           objects shared through a cache it does not.
 -/
 namespace MindsVerif.Props.C06
 open MindsVerif MindsVerif.Render MindsVerif.OPM MindsVerif.SaParen MindsVerif.Gen
@@ -451,5 +467,146 @@ theorem phi6_join_probe :
       match saKind r.1 with
       | some k => r.2.2.1 == kindText k && (r.2.1 || r.2.2.2 == "1=1")
       | none => r.2.2.1 == "!NotImplementedError") = true := by decide
+
+/-! ## round 5 — set operations: the printed text keeps the operand grouping -/
+section SetOps
+open MindsVerif.RenderSetOps
+
+/-- full statement for set-operation trees: the rendered text, read by the target dialect, denotes the
+rows of the tree — all dialects, all trees, all operand contents (`supported`: the target has the
+operators at all; for sqlite that excludes INTERSECT ALL / EXCEPT ALL, always true for the others) -/
+def C06_setops_full : Prop :=
+  ∀ (d : Dialect) (tabs : Nat → Render.Table) (t : STree), supported d t = true →
+    denote d tabs (render d t) = some (evalTree tabs t)
+
+theorem C06_setops : C06_setops_full := denote_render
+
+/-- …and when the target lacks an operator of the tree, it rejects the rendered text (no other meaning) -/
+theorem C06_setops_unsupported (d : Dialect) (tabs : Nat → Render.Table) (t : STree) (h : supported d t = false) :
+    denote d tabs (render d t) = none := by
+  simp only [denote, (items_render_unsupported d tabs t h).1]
+  rfl
+
+/-- on top of `C06_norm`: operands are arbitrary queries of the typed fragment, each printed in its
+normal form; the whole text has the rows of the parsed statement -/
+theorem C06_setops_query (env : Env) (db : Db) (leaves : Nat → Query) (d : Dialect) (t : STree)
+    (hr : ∀ i, raisesQ (leaves i) = false) (h : supported d t = true) :
+    denote d (fun i => evalQuery env db (saNorm (leaves i))) (render d t) =
+      some (evalQuery env db (toQuery leaves t)) := by
+  rw [denote_render d _ t h, ← evalQuery_toQuery, ← saNorm_toQuery,
+    C06_norm env db _ (raisesQ_toQuery leaves hr t)]
+
+/-- what a renderer may do for sqlite besides `render`: continue the chain on the left (for every
+operator — that is sqlite's own grouping) and delimit compound operands on the right only -/
+theorem C06_setops_left_chain (tabs : Nat → Render.Table) (t : STree) (h : supported .sqlite t = true) :
+    denote .sqlite tabs (renderLeftChain .sqlite t) = some (evalTree tabs t) := by
+  obtain ⟨⟨c, hc, hv⟩, _⟩ := items_operand_leftChain tabs t h
+  simp only [denote, hc, Option.map_some, readChain, hv]
+
+/-- **the tie's checker is sound**: every text `accepted d t` — compound right operands delimited the
+dialect's way, compound left operands delimited or (sqlite) continuing the chain, in any mixture — is read
+by the target as the tree.  The stream `render-setops` asks `accepted` of the text the real renderer
+printed, so a renderer may choose among these renderings without the tie breaking; `C06_setops` and
+`C06_setops_left_chain` are the two extreme choices (`C06_setops_accepts`). -/
+theorem C06_setops_accepted (d : Dialect) (tabs : Nat → Render.Table) (t : STree) (x : RText)
+    (hs : supported d t = true) (h : accepted d t x = true) : denote d tabs x = some (evalTree tabs t) :=
+  accepted_sound d tabs t x hs h
+
+theorem C06_setops_accepts (d : Dialect) (t : STree) :
+    accepted d t (render d t) = true ∧ accepted .sqlite t (renderLeftChain .sqlite t) = true :=
+  ⟨(accepted_render d t).1, (accepted_leftChain t).1⟩
+
+private def one : Nat → Render.Table := fun _ => [[some 1]]
+private def aEbEc : STree := .node .except true (.leaf 0) (.node .except true (.leaf 1) (.leaf 2))
+
+/-- EXCEPT is not associative: `A EXCEPT (B EXCEPT C)` and `(A EXCEPT B) EXCEPT C` differ as soon as one
+row is in all three operands (DISTINCT and ALL) -/
+theorem C06_witness_except_assoc :
+    evalTree one aEbEc = [[some 1]] ∧
+    evalTree one (.node .except true (.node .except true (.leaf 0) (.leaf 1)) (.leaf 2)) = [] ∧
+    evalTree one (.node .except false (.leaf 0) (.node .except false (.leaf 1) (.leaf 2))) ≠
+      evalTree one (.node .except false (.node .except false (.leaf 0) (.leaf 1)) (.leaf 2)) := by decide
+
+/-- seeded change C06_10 in the model: splicing a same-operation compound operand into the chain prints
+`S0 EXCEPT S1 EXCEPT S2` for `A EXCEPT (B EXCEPT C)`, which sqlite reads as `(A EXCEPT B) EXCEPT C`;
+`render` prints the derived table -/
+theorem C06_witness_10 :
+    (renderSpliceSame .sqlite aEbEc).show = "S0 EXCEPT S1 EXCEPT S2" ∧
+    denote .sqlite one (renderSpliceSame .sqlite aEbEc) = some [] ∧
+    (render .sqlite aEbEc).show = "S0 EXCEPT D[ S1 EXCEPT S2 ]" ∧
+    (render .mysql aEbEc).show = "S0 EXCEPT ( S1 EXCEPT S2 )" ∧
+    denote .sqlite one (render .sqlite aEbEc) = some [[some 1]] ∧
+    denote .sqlite one (render .mysql aEbEc) = none := by decide
+
+private def tabs3 : Nat → Render.Table := fun i => if i = 0 then [[some 1]] else if i = 1 then [[some 2]] else [[some 3]]
+
+/-- left nesting is not harmless for every target either: `(A UNION B) INTERSECT C` printed bare is
+`A UNION (B INTERSECT C)` to MySQL / PostgreSQL (sqlite reads it as written) -/
+theorem C06_witness_flat_prec :
+    let t : STree := .node .intersect true (.node .union true (.leaf 0) (.leaf 1)) (.leaf 2)
+    evalTree tabs3 t = [] ∧ denote .postgres tabs3 (renderFlat t) = some [[some 1]] ∧
+    denote .sqlite tabs3 (renderFlat t) = some [] ∧ denote .postgres tabs3 (render .postgres t) = some [] := by
+  decide
+
+/-- the checker rejects the texts of the witnesses: the spliced same-operation operand (seed C06_10), a bare
+chain for a dialect with operator precedence (the same bare chain is fine for sqlite), parentheses for
+sqlite; a derived table, on the other hand, is a right delimiter for every dialect -/
+theorem C06_witness_rejected :
+    accepted .sqlite aEbEc (renderSpliceSame .sqlite aEbEc) = false ∧
+    accepted .postgres (.node .intersect true (.node .union true (.leaf 0) (.leaf 1)) (.leaf 2))
+      (renderFlat (.node .intersect true (.node .union true (.leaf 0) (.leaf 1)) (.leaf 2))) = false ∧
+    accepted .sqlite (.node .intersect true (.node .union true (.leaf 0) (.leaf 1)) (.leaf 2))
+      (renderFlat (.node .intersect true (.node .union true (.leaf 0) (.leaf 1)) (.leaf 2))) = true ∧
+    accepted .sqlite aEbEc (render .mysql aEbEc) = false ∧
+    accepted .mysql aEbEc (render .sqlite aEbEc) = true := by decide
+
+/-- non-vacuity: a depth-3 tree nested on both sides with all three operations, supported by every dialect -/
+example : [Dialect.sqlite, .mysql, .postgres].all (fun d =>
+    supported d (.node .except true (.node .union false (.leaf 0) (.node .intersect true (.leaf 1) (.leaf 2)))
+      (.node .except true (.leaf 3) (.node .union true (.leaf 0) (.leaf 2))))) = true := by decide
+example : supported .sqlite (.node .except false (.leaf 0) (.leaf 1)) = false ∧
+    supported .mysql (.node .except false (.leaf 0) (.leaf 1)) = true := by decide
+
+end SetOps
+
+/-! ## round 5 — FROM lists of nested expression sub-queries (auto-correlation by object identity) -/
+section Scope
+open MindsVerif.RenderScope
+
+/-- `to_table` builds a new `FromClause` object at every reference (`allocFresh`; pinned on the real
+renderer by the stream `render-from-scope`): then, for every chain of nested EXISTS / IN / scalar
+sub-queries and whatever tables, aliases, comma lists and explicit joins their FROM lists hold —
+repeated names and aliases included —, the FROM list of every level is printed in full -/
+theorem C06_from_fresh (n : Nat) (levels : List (List FRef)) :
+    printed (displayAll [] (allocFresh n levels)) = levels := by
+  rw [displayAll_allocFresh n [] levels (fun x hx => by simp at hx), printed_allocFresh]
+
+private def tx : TRef := ⟨1, some 7⟩
+private def ty : TRef := ⟨2, some 8⟩
+
+/-- seeded change C06_9 in the model: aliased table clauses shared through a cache — the inner `t1 AS x`
+of `… FROM t1 AS x WHERE EXISTS (SELECT … FROM t1 AS x, t2 AS y …)` is dropped; a single-entry inner FROM
+list and a different alias are not affected -/
+theorem C06_witness_9 :
+    printed (displayAll [] (allocCached false 0 [[.table tx], [.table tx, .table ty]])) = [[.table tx], [.table ty]] ∧
+    printed (displayAll [] (allocCached false 0 [[.table tx], [.table tx]])) = [[.table tx], [.table tx]] ∧
+    printed (displayAll [] (allocCached false 0 [[.table tx], [.table ⟨1, some 9⟩, .table ty]])) =
+      [[.table tx], [.table ⟨1, some 9⟩, .table ty]] := by decide
+
+/-- the same through an explicit join of the enclosing select (its members are from-objects too), one
+level further down, and for un-aliased tables when those are cached as well -/
+theorem C06_witness_9b :
+    printed (displayAll [] (allocCached false 0 [[.join ty [tx]], [.table ⟨3, none⟩, .table tx]])) =
+      [[.join ty [tx]], [.table ⟨3, none⟩]] := by decide
+
+theorem C06_witness_9c :
+    printed (displayAll [] (allocCached false 0 [[.table ty], [.table tx], [.table ty, .table tx]])) =
+      [[.table ty], [.table tx], [.table ty]] ∧
+    printed (displayAll [] (allocCached true 0 [[.table ⟨1, none⟩], [.table ⟨2, none⟩, .table ⟨1, none⟩]])) =
+      [[.table ⟨1, none⟩], [.table ⟨2, none⟩]] ∧
+    printed (displayAll [] (allocCached false 0 [[.table ⟨1, none⟩], [.table ⟨2, none⟩, .table ⟨1, none⟩]])) =
+      [[.table ⟨1, none⟩], [.table ⟨2, none⟩, .table ⟨1, none⟩]] := by decide
+
+end Scope
 
 end MindsVerif.Props.C06
